@@ -427,11 +427,25 @@ impl ScalarIndex for BitmapIndex {
                     Bound::Unbounded => Bound::Unbounded,
                 };
 
-                let keys: Vec<_> = self
-                    .index_map
-                    .range((range_start, range_end))
-                    .map(|(k, _v)| k.clone())
-                    .collect();
+                // BTreeMap::range panics on an inverted range (`x BETWEEN 5 AND 1`, or
+                // `x >= 5 AND x < 1` merged into one range) and on `(Excluded(v), Excluded(v))`;
+                // such a predicate simply matches nothing.
+                let empty_range = match (&range_start, &range_end) {
+                    (Bound::Included(s), Bound::Included(e)) => s > e,
+                    (
+                        Bound::Included(s) | Bound::Excluded(s),
+                        Bound::Included(e) | Bound::Excluded(e),
+                    ) => s >= e,
+                    _ => false,
+                };
+                let keys: Vec<_> = if empty_range {
+                    Vec::new()
+                } else {
+                    self.index_map
+                        .range((range_start, range_end))
+                        .map(|(k, _v)| k.clone())
+                        .collect()
+                };
 
                 metrics.record_comparisons(keys.len());
 
